@@ -137,7 +137,13 @@ func (w *World) submit(kind string, node uint64, target uint64, voter bool) {
 	switch kind {
 	case "rep", "lin", "lease":
 		typ := map[string]raft.OperationType{"rep": raft.Replicated, "lin": raft.LinearizableReadOnly, "lease": raft.LeaseBasedReadOnly}[kind]
-		fut := n.R.SubmitOperation([]byte(op.Payload), typ, op.Timeout)
+		buf := []byte(op.Payload)
+		fut := n.R.SubmitOperation(buf, typ, op.Timeout)
+		// the client re-uses its buffer as soon as the call has returned (an encoder writing the next request):
+		// what was submitted is what the buffer held when SubmitOperation was called
+		for i := range buf {
+			buf[i] = '#'
+		}
 		go func() {
 			res := fut.Await()
 			if n.Rec.Tripped() {
@@ -151,6 +157,10 @@ func (w *World) submit(kind string, node uint64, target uint64, voter bool) {
 			r := res.Success()
 			w.mu.Lock()
 			op.Index, op.Term, op.Bytes = r.Operation.LogIndex, r.Operation.LogTerm, string(r.Operation.Bytes)
+			// ... and what a future hands back is the caller's too: it decodes in place, here it wipes the bytes
+			for i := range r.Operation.Bytes {
+				r.Operation.Bytes[i] = '%'
+			}
 			if rr, ok := r.ApplicationResponse.(ReadResult); ok {
 				op.Read, op.HasRead = rr, true
 			}
